@@ -220,7 +220,7 @@ def run_property(pid, tier, args):
     assumptions = list(ASSUMPTIONS_K) if hs else []
     if mev:
         assumptions += mev.get("assumptions", [])
-    C.write_evidence(pid, tier, "model_checking", cov, assumptions, wall, len(violations))
+    C.write_evidence(pid, tier, "model_checking", cov, assumptions, wall, len(violations), partial=bool(args.only))
     C.log("[%s] %s tier: %d queries, %d non-trivial, %d violations, %d inconclusive, %.0fs" %
           (pid, tier, evaluations, nontrivial, len(violations), len(inconclusive), wall))
     return exit_code
